@@ -57,6 +57,11 @@ prop("C15", "E-GEN",
      "For every canonical rendering of the annotated-model family and every valid schema of the test corpus: Len<=|S|, S[:Len] has the same verdict and AST, Len is idempotent, and for accepted S Len(S + LF|CRLF + b + rest) = Len(S) for the non-blank first bytes b other than / and # (all 250 for every 16th model and the whole corpus, 28 byte classes otherwise; thorough: all 250 everywhere) x 11 rests.",
      "Follow-up text starts on a new line with a non-blank byte; texts for which Len() returns an error carry no claim.")
 
+prop("C04", "E-GEN",
+     "bounded exhaustive enumeration of schema models printed to text; AST compared with the tree derived from the printed model",
+     "Every model of the annotated-model family (50k quick / 234k thorough: every node kind, ordered selections of <=3 (4) rules from per-kind pools incl. 19- and 20-digit integers, nested or / enum / allOf lists, notes, key shortcuts, 2 levels) under 3 annotation placements: GetAST() must have one node per element in source order with the element's JSON kind, key, shortcut flag, decoded value or reference text, trimmed note, and exactly the written rules in order with their kinds, values, items and properties.",
+     "SchemaType and Source fields are not compared (not named by the statement); unsigned rule values compared numerically.")
+
 ORDER = ["C%02d" % i for i in range(1, 21)]
 
 def main():
